@@ -479,7 +479,9 @@ def explore(fn, unwind=3, max_paths=200, max_decisions=60, feas_timeout_ms=3000,
         if deadline is not None and time.time() > deadline:
             break
         if stack:
-            prefix = stack.pop()
+            # alternate between the deepest and the shallowest open alternative, so that early decisions
+            # (e.g. the first parameter row of a loop over rows) get flipped within the path budget too
+            prefix = stack.pop() if (len(results) % 2 == 0) else stack.pop(0)
         else:
             if n_spec >= max(4, max_paths // 4):
                 break  # speculative alternatives beyond the budget stay unexplored (counted as leftover)
